@@ -26,6 +26,8 @@ def gen_scenario(rng: random.Random, focus: str = "any") -> dict:
     }
     if rng.random() < 0.3:
         sc["time_scale"] = rng.choice([0.5, 2.0, 4.0])
+    if focus in ("C09", "C12") and rng.random() < 0.25:
+        sc["swap_env"] = True
     if focus in ("C04", "any") and rng.random() < 0.2:
         sc["prelaunch"] = True     # start from the final state of a preparatory launch (load path)
     n = rng.randint(1, 6)
@@ -43,6 +45,17 @@ def gen_scenario(rng: random.Random, focus: str = "any") -> dict:
             client.insert(rng.randrange(len(client) + 1), ["POST", "/api/shutdown"])
     client.append(["POST!", "/api/shutdown"])
     sc["client"] = client
+    if focus == "C17" and rng.random() < 0.2:
+        # a pause that times out on every attempt (a step far longer than the time-out), a resume, and then
+        # nobody sends anything for a while: whatever was accepted has been carried out, nothing else is
+        sc["timed"] = True
+        sc["max_attempts"] = rng.choice([1, 2])
+        sc["pause_timeout"] = 0.5
+        sc["durations"] = {"step": rng.choice([3.0, 6.0]), "train": 0.0}
+        sc["client"] = [["delay", 0.5], ["POST", "/api/pause"], ["delay", rng.choice([2.0, 4.0])],
+                        ["POST", "/api/resume"], ["delay", rng.choice([6.0, 12.0])], ["GET", "/api/status"],
+                        ["delay", 2.0], ["POST!", "/api/shutdown"]]
+        return sc
     if focus == "C01" or (focus in ("any", "C02") and rng.random() < 0.25):
         # handshake-heavy scripts: back-to-back pause / resume / save, failed attempts
         sc["queue_size"] = 3
@@ -124,6 +137,20 @@ def gen_scenario(rng: random.Random, focus: str = "any") -> dict:
             tcl.append(["delay", rng.choice([0.0, 0.5, 1.5, 4.0])])
             tcl.append(c)
         sc["client"] = tcl
+    if focus == "C18":
+        # state retention inside the running system: saves by command and by condition, running and paused
+        sc["faults"] = []
+        sc["prelaunch"] = False
+        sc["keeper_max_keep"] = rng.choice([0, 1, 2, 2])
+        sc["queue_size"] = 3
+        cl = []
+        for _ in range(rng.randint(2, 6)):
+            cl.append(rng.choice([["POST", "/api/save-state"], ["POST", "/api/save-state"], ["POST", "/api/pause"],
+                                  ["POST", "/api/resume"], ["GET", "/api/status"]]))
+        cl += [["linger", 3], ["POST!", "/api/shutdown"]]
+        sc["client"] = cl
+        sc["save_condition"] = [rng.random() < 0.3 for _ in range(rng.randint(0, 12))]
+        return sc
     if focus == "C16":
         # fixed-interval interaction inside launch(): timed runs with pauses / saves between and during steps
         sc["timed"] = True
@@ -135,6 +162,10 @@ def gen_scenario(rng: random.Random, focus: str = "any") -> dict:
         sc["interval_offset"] = rng.choice([0.0, 0.0, 0.25]) * sc["time_scale"]
         sc["durations"] = {"step": rng.choice([0.0, 0.25, 0.5]) , "train": rng.choice([0.0, 1.0]),
                            "on_resumed": rng.choice([0.0, 0.5])}
+        if rng.random() < 0.4:
+            # a trainer that waits on the system clock (pamiq_core.time.sleep) for longer than the interval
+            sc["trainers"] = max(1, sc["trainers"])
+            sc["train_clock_sleep"] = rng.choice([3.0, 7.0]) * sc["time_scale"]
         cl = []
         for _ in range(rng.randint(1, 4)):
             cl.append(["delay", rng.choice([0.5, 3.0, 5.0])])
